@@ -418,8 +418,11 @@ func (w *World) Join(r *Rec, useGop bool) {
 
 // Quiesce waits until every non-stalled registered consumer has drained its queue and every
 // stalled one holds exactly one packet in flight (or has an empty queue); generous timeout.
-func (w *World) Quiesce() bool {
-	deadline := time.Now().Add(60 * time.Second)
+func (w *World) Quiesce() bool { return w.Quiesce2(60 * time.Second) }
+
+// Quiesce2: Quiesce with an explicit budget
+func (w *World) Quiesce2(budget time.Duration) bool {
+	deadline := time.Now().Add(budget)
 	stable := 0
 	var last string
 	for time.Now().Before(deadline) {
